@@ -36,6 +36,12 @@ def run(rep, tier, M=None):
     c14_k1.k1(rep, M)
     from . import common as _common
     _common.guarded(rep, "C14.K1b", c14_k1.k1b, rep, M)
+    # the package's API is where the recognisers are observed: the caller's characters reach the generated lexer as they are, and a reported
+    # syntax error always ends the parse (otherwise ANTLR's recovery makes the verdict "accept")
+    from . import c10
+    ix = _common.index(rep)
+    _common.guarded(rep, "C10.2", c10.c10_2, rep, ix)
+    _common.guarded(rep, "C10.3", c10.c10_3, rep, ix)
     rep.extra["programs"] = len(G.prules) + len(G.lrules)
     rep.extra["disagreements_checked"] = sum(1 for o in rep.obs if o.rule in ("C14.A3", "C14.A4"))
     return M
